@@ -77,3 +77,16 @@ TEXT["C09"] = dict(
                "the histories generated.",
     level_note="trusts the O(k) shadow scan; unguarded variants are driven only inside their documented "
                "precondition")
+TEXT["C05"] = dict(
+    engine="differential",
+    design_ref="DESIGN.md section 4, C05",
+    technique="runtime differential monitor vs stable reference merge with identity-carrying elements, under ASan+UBSan",
+    level_text="Randomly generated tuples of sorted sequences (empty ones, heavy ties, dominant sequence, "
+               "all lengths classes) are merged by every sequential entry point and algorithm for copy- "
+               "and pointer-tree element sizes; because every element carries (sequence, position), the "
+               "monitor checks smallest-first order, stability, the per-input prefix property, the "
+               "returned end and the advanced input positions, and canaries catch writes beyond length. "
+               "ASan catches an unguarded variant running off an input. Exploration: held on the shapes "
+               "generated.",
+    level_note="trusts std::stable_sort as reference; sentinel variants are driven with the sentinel the "
+               "property requires")
